@@ -1,11 +1,13 @@
 package checks
 
 import (
+	"bytes"
 	"encoding/base64"
 	"encoding/json"
 	"fmt"
 	"os"
 	"os/exec"
+	"path/filepath"
 
 	"verif/core"
 )
@@ -150,4 +152,63 @@ func c19b64(s string) string {
 		return string(b)
 	}
 	return s
+}
+
+// c19OutputCallsSpace: the output entry points on one Parser do not influence each other: a writer
+// without a format always gets json-pretty, a file written twice holds exactly the second output,
+// and Output(f) returns the same bytes before and after.
+func c19OutputCallsSpace() core.Space {
+	orders := [][]string{{"yaml", "json"}, {"toml", "json"}, {"json-pretty", "json"}, {"yaml", "toml"}, {"json", "yaml"}}
+	return core.Space{Name: "output-entry-points-do-not-influence-each-other", N: int64(len(orders) * len(c19FreshDocs)), Chunk: 1,
+		Desc: func(i int64) any { return map[string]any{"formats": orders[i%int64(len(orders))], "doc": c19FreshDocs[i/int64(len(orders))]} },
+		Run: func(c *core.Ctx, i int64) {
+			fs, doc := orders[i%int64(len(orders))], c19FreshDocs[i/int64(len(orders))]
+			dir := scratchDir()
+			defer os.RemoveAll(dir)
+			p := newParser()
+			if err := p.MergeDocument(newDoc("d", core.Clone(doc))); err != nil {
+				return
+			}
+			c.Eval()
+			c.Trans(8)
+			wit := fmt.Sprintf("output calls %v on %s", fs, core.Canon(doc))
+			first, err := p.Output(fs[0])
+			if err != nil {
+				return
+			}
+			pretty, _ := p.Output("json-pretty")
+			second, _ := p.Output(fs[1])
+			c.Validated()
+			c.Nontrivial()
+			var w bytes.Buffer
+			if err := p.OutputToWriter(&w, ""); err != nil || w.String() != string(pretty) {
+				c.Fail("as-if-never-observed", "writer-default-depends-on-earlier-calls", wit, map[string]any{"got": w.String(), "want": string(pretty)})
+				return
+			}
+			path := filepath.Join(dir, "out.txt")
+			// the longer output first, then the shorter one onto the same path
+			a, b := first, second
+			fa, fb := fs[0], fs[1]
+			if len(a) < len(b) {
+				a, b, fa, fb = b, a, fb, fa
+			}
+			if err := p.OutputToFile(path, fa); err != nil {
+				return
+			}
+			if err := p.OutputToFile(path, fb); err != nil {
+				c.Fail("as-if-never-observed", "second-file-output-fails", wit, errStr(err))
+				return
+			}
+			got, _ := os.ReadFile(path)
+			if string(got) != string(b) {
+				c.Fail("as-if-never-observed", "rewritten-file-differs-from-output", wit, map[string]any{"file": string(got), "want": string(b), "previous": string(a)})
+				return
+			}
+			again, _ := p.Output(fs[0])
+			if string(again) != string(first) {
+				c.Fail("as-if-never-observed", "output-changes-after-other-output-calls", wit, map[string]any{"first": string(first), "again": string(again)})
+				return
+			}
+			c.Outcome("output-calls-independent")
+		}}
 }
